@@ -42,7 +42,8 @@ STAGES = {
     "C14": [S("regress", "^TestC14Regress$|^TestC14LibLib$"),
             S("server-enum", "^TestC14Server$", shards=(4, 16)),
             S("client-enum", "^TestC14Client$", shards=(1, 4)),
-            S("server-lists", "^TestC14ServerLists$", quick=2500, thorough=20000, shards=(3, 16))],
+            S("server-lists", "^TestC14ServerLists$", quick=2500, thorough=20000, shards=(3, 16)),
+            S("interleaved", "^TestC14Interleaved$", quick=600, thorough=6000, shards=(2, 16))],
     "C15": [S("outbound", "^TestC15$", quick=3000, thorough=20000, shards=(3, 16)),
             S("inbound", "^TestC15Inbound$", quick=1500, thorough=10000, shards=(3, 16))],
     "C18": [S("regress", "^TestC18Regress$"),
